@@ -18,6 +18,8 @@
 //                              FLUT = format(..).pipeline().filter(<debug only>).sendToFile(p0).end().sendToFile(p1)
 //                              FLUC = format(..).pipeline().filterCategory(<debug only>).sendToFile(p0, 1 GiB, 0).end().sendToFile(p1)
 //                              FLUB = format(..).sendToFile("/dev/full").sendToFile(p1)
+//                              FLU1 = format(..).sendToFile(p0)          (handlers: formatter, sink)
+//                              FLUP = format(..).sendToFile(p0).pipeline().filterLevel(QtWarningMsg)   (formatter, sink, (filter))
 //              the k-th file sink in depth-first order writes <dir>/s<k>.log
 //              | q RotatingFileSink(limit 1000 bytes: rotates often) | Q the same, with a directory occupying the
 //                name of today's first rotated file (the rename fails, the sink goes on appending)
@@ -25,6 +27,15 @@
 //                ONEA1 = configure(path, .., async = true) then resetOwnThread(); ONEA2 = the same, then the event loop
 //                runs and quits (aboutToQuit stops the own thread): the logger has BECOME synchronous
 //     msgs   : f (no size) = an explicit gQtLogger.flush() between two messages (takes no message id)
+//              reconfigurations between two messages (no id either); <path> = handler indices joined by '.', from
+//              gQtLogger (empty = the logger itself); a path that does not lead to a pipeline makes the item a no-op:
+//                +<path>:<handler>  Pipeline::append of ONE handler given in tree letters (may be a "( .. )")
+//                ^<path>:F|R        SimplePipeline::sendToFile(file [, 1 GiB, 0]) on that pipeline
+//                ~<path>:<k>        Pipeline::remove(handlers()[k])
+//                !<path>:           SortedPipeline::clearSinks()
+//              file sinks are numbered in creation order (s<k>.log)
+// Built with -DVERIF_NO_THREAD (library with -DQTLOGGER_NO_THREAD): the asynchronous front-ends (ONEA1/ONEA2)
+// and every thread mode but `main` do not exist (exit status 2): the single-threaded logger has no mutex.
 //     end    : fatal | kill
 //              | N a null HandlerPtr entry (appended through the initializer-list overload)
 //              | S a FunctionHandler that sleeps 2 s when called from a thread other than the main thread
@@ -60,11 +71,13 @@ static std::string text_of(int id, int size)
     return s;
 }
 static int msg_id(const LogMessage &m) { return m.message().section(QLatin1Char(':'), 0, 0).toInt(); }
-struct Msg { char t; int size; int id; };
+struct Msg { char t; int size; int id; std::string op; };
+static void apply_op(const std::string &op);
 static void emit_msg(int, const Msg &m)
 {
     const int id = m.id;
     if (m.t == 'f') { gQtLogger.flush(); return; }   // an explicit flush() between two messages
+    if (m.t == '+' || m.t == '^' || m.t == '~' || m.t == '!') { apply_op(m.op); return; }   // a reconfiguration
     const std::string s = text_of(id, m.size);
     char t = m.t == 'm' ? "diwc"[id % 4] : m.t;
     if (t == 'z') {
@@ -87,6 +100,105 @@ static void emit_msg(int, const Msg &m)
     default: qInfo("%s", s.c_str()); break;
     }
 }
+static QString g_dir;
+static int g_nsink = 0;
+static const int big = 1 << 30;
+static QString next_path() { return g_dir + QStringLiteral("/s%1.log").arg(g_nsink++); }
+// a directory that occupies the name the first rotation of today would use: the rename fails
+static void block_rotation(int k)
+{
+    const QString today = QDate::currentDate().toString(QStringLiteral("yyyy-MM-dd"));
+    QDir().mkpath(g_dir + QStringLiteral("/s%1.%2.1.log").arg(k).arg(today));
+}
+// appends the handlers described by the tree letters to root (handler-level API); false: unknown letter
+static bool build_into(Pipeline *root, const std::string &tree)
+{
+    std::vector<Pipeline *> stack { root };
+    auto path = []() { return next_path(); };
+    int &nsink = g_nsink;
+    int depth = 0;
+    for (char c : tree) {
+        Pipeline *cur = stack.back();
+        switch (c) {
+        case 'o': cur->append(PatternFormatterPtr::create(QStringLiteral("%{message}"))); break;
+        case 'F': cur->append(FileSinkPtr::create(path())); break;
+        case 'R': cur->append(RotatingFileSinkPtr::create(path(), big, 0)); break;
+        case 'r': cur->append(RotatingFileSinkPtr::create(path(), 65536, 0)); break;
+        case 'q': cur->append(RotatingFileSinkPtr::create(path(), 1000, 0)); break;                // rotates every 1000 bytes
+        case 'Q': block_rotation(nsink); cur->append(RotatingFileSinkPtr::create(path(), 1000, 0)); break; // ... and its first rename fails
+        case 'D': cur->append(RotatingFileSinkPtr::create(path(), 0, 0, RotatingFileSink::RotationDaily)); break;
+        case 'N': { // a null entry: append(initializer_list) and Pipeline({..}) accept it, process() skips it
+            std::initializer_list<HandlerPtr> il = { HandlerPtr() };
+            cur->append(il);
+            break;
+        }
+        case 'S': // a slow handler: sleeps 2 s inside the logger (mutex held) when called from a non-main thread
+            cur->append(FunctionHandlerPtr::create([](LogMessage &) {
+                if (QThread::currentThread() != qApp->thread()) QThread::msleep(2000);
+                return true;
+            }));
+            break;
+        case 'B': nsink++; cur->append(FileSinkPtr::create(QStringLiteral("/dev/full"))); break;
+        case 'g': cur->append(FunctionFilterPtr::create([](const LogMessage &m) { return m.type() == QtDebugMsg; })); break;
+        case 'n': cur->append(FunctionFilterPtr::create([](const LogMessage &m) { return m.type() != QtFatalMsg; })); break;
+        case 'e': cur->append(FunctionFilterPtr::create([](const LogMessage &m) { return msg_id(m) % 2 == 0; })); break;
+        case 'x': cur->append(RegExpFilterPtr::create(QStringLiteral("^[0-9]*[13579]:"))); break;
+        case 'l': cur->append(LevelFilterPtr::create(QtWarningMsg)); break;
+        case 'y': cur->append(CategoryFilterPtr::create(QStringLiteral("*=false\n*.debug=true"))); break;
+        case '(': {
+            // alternate scoped and unscoped nested pipelines
+            auto p = SimplePipelinePtr::create(/* scoped */ (depth++ % 2) == 0);
+            cur->append(p);
+            stack.push_back(p.data());
+            break;
+        }
+        case ')': if (stack.size() > 1) stack.pop_back(); break;
+        default: return false;
+        }
+    }
+    return true;
+}
+// one reconfiguration item: <op><path>:<arg>
+static void apply_op(const std::string &it)
+{
+    const char kind = it[0];
+    const size_t colon = it.find(':');
+    const std::string ps = it.substr(1, colon == std::string::npos ? std::string::npos : colon - 1);
+    const std::string arg = colon == std::string::npos ? std::string() : it.substr(colon + 1);
+    Pipeline *cur = &gQtLogger;
+    size_t i = 0;
+    while (cur && i < ps.size()) {
+        size_t j = ps.find('.', i);
+        const std::string part = ps.substr(i, j == std::string::npos ? std::string::npos : j - i);
+        if (!part.empty()) {
+            const int idx = atoi(part.c_str());
+            const auto &hs = static_cast<const Pipeline *>(cur)->handlers();
+            auto sub = idx < hs.size() ? hs.at(idx).dynamicCast<Pipeline>() : PipelinePtr();
+            cur = sub.data();   // stays alive: owned by its parent
+        }
+        if (j == std::string::npos) break;
+        i = j + 1;
+    }
+    if (kind == '+' || kind == '^') {
+        if (!cur) {
+            // the handler is created (its sinks take their numbers, as in the model) and dropped
+            Pipeline scratch;
+            build_into(&scratch, arg);
+            return;
+        }
+        auto *sp = dynamic_cast<SimplePipeline *>(cur);
+        if (kind == '^' && sp && arg == "F") sp->sendToFile(next_path());
+        else if (kind == '^' && sp && arg == "R") sp->sendToFile(next_path(), big, 0);
+        else build_into(cur, arg);
+    } else if (kind == '~') {
+        if (!cur) return;
+        const int k = atoi(arg.c_str());
+        const auto &hs = static_cast<const Pipeline *>(cur)->handlers();
+        if (k < hs.size()) { HandlerPtr h = hs.at(k); cur->remove(h); }
+    } else if (kind == '!') {
+        if (auto *sp = dynamic_cast<SortedPipeline *>(cur)) sp->clearSinks();
+    }
+}
 int main(int argc, char **argv)
 {
     if (argc < 7)
@@ -95,21 +207,21 @@ int main(int argc, char **argv)
     setrlimit(RLIMIT_CORE, &rl);
     signal(SIGXFSZ, SIG_IGN);
     QCoreApplication app(argc, argv);
-    const QString dir = QString::fromLocal8Bit(argv[1]);
+    g_dir = QString::fromLocal8Bit(argv[1]);
     const std::string tree = argv[2], end = argv[3], thr = argv[4], ms = argv[5];
     const int fatalsize = atoi(argv[6]);
-    const int big = 1 << 30;
-    int nsink = 0;
-    auto path = [&]() { return dir + QStringLiteral("/s%1.log").arg(nsink++); };
-
-    const QString today = QDate::currentDate().toString(QStringLiteral("yyyy-MM-dd"));
-    // a directory that occupies the name the first rotation of today would use: the rename fails
-    auto block_rotation = [&](int k) { QDir().mkpath(dir + QStringLiteral("/s%1.%2.1.log").arg(k).arg(today)); };
+    int &nsink = g_nsink;
+    auto path = []() { return next_path(); };
+#ifdef VERIF_NO_THREAD
+    if (thr != "main" || tree == "ONEA1" || tree == "ONEA2")
+        return 2;   // no second thread may log into the single-threaded logger; no asynchronous front-end
+#endif
     if (tree == "ONE") {
         gQtLogger.configure(path(), 0, 0, RotatingFileSink::Option::None, false);
     } else if (tree == "ONEQ") { // one-line configuration with a small size limit; the first rotation's rename is blocked
         block_rotation(0);
         gQtLogger.configure(path(), 1000, 0, RotatingFileSink::Option::None, false);
+#ifndef VERIF_NO_THREAD
     } else if (tree == "ONEA1") { // configured asynchronous, made synchronous again before anything is logged
         gQtLogger.configure(path(), 0, 0, RotatingFileSink::Option::None, /* async */ true);
         gQtLogger.resetOwnThread();
@@ -117,11 +229,20 @@ int main(int argc, char **argv)
         gQtLogger.configure(path(), 0, 0, RotatingFileSink::Option::None, /* async */ true);
         QTimer::singleShot(0, &app, &QCoreApplication::quit);
         app.exec();
+#endif
     } else if (tree == "ONER") {
         gQtLogger.configure(path(), big, 0, RotatingFileSink::Option::None, false);
     } else if (tree == "FLU") {
         auto p0 = path(), p1 = path();
         gQtLogger.format("%{message}").sendToFile(p0).sendToFile(p1, big, 0);
+        gQtLogger.installMessageHandler();
+    } else if (tree == "FLU1") { // one plain file: the scenario replaces it at run time (clearSinks() + sendToFile())
+        auto p0 = path();
+        gQtLogger.format("%{message}").sendToFile(p0);
+        gQtLogger.installMessageHandler();
+    } else if (tree == "FLUP") { // main file + a nested pipeline() behind a level filter that gets its file sink at run time
+        auto p0 = path();
+        gQtLogger.format("%{message}").sendToFile(p0).pipeline().filterLevel(QtWarningMsg);
         gQtLogger.installMessageHandler();
     } else if (tree == "FLUN") {
         auto p0 = path(), p1 = path();
@@ -145,47 +266,8 @@ int main(int argc, char **argv)
         gQtLogger.format("%{message}").sendToFile(QStringLiteral("/dev/full")).sendToFile(p1);
         gQtLogger.installMessageHandler();
     } else {
-        std::vector<Pipeline *> stack { &gQtLogger };
-        int depth = 0;
-        for (char c : tree) {
-            Pipeline *cur = stack.back();
-            switch (c) {
-            case 'o': cur->append(PatternFormatterPtr::create(QStringLiteral("%{message}"))); break;
-            case 'F': cur->append(FileSinkPtr::create(path())); break;
-            case 'R': cur->append(RotatingFileSinkPtr::create(path(), big, 0)); break;
-            case 'r': cur->append(RotatingFileSinkPtr::create(path(), 65536, 0)); break;
-            case 'q': cur->append(RotatingFileSinkPtr::create(path(), 1000, 0)); break;                // rotates every 1000 bytes
-            case 'Q': block_rotation(nsink); cur->append(RotatingFileSinkPtr::create(path(), 1000, 0)); break; // ... and its first rename fails
-            case 'D': cur->append(RotatingFileSinkPtr::create(path(), 0, 0, RotatingFileSink::RotationDaily)); break;
-            case 'N': { // a null entry: append(initializer_list) and Pipeline({..}) accept it, process() skips it
-                std::initializer_list<HandlerPtr> il = { HandlerPtr() };
-                cur->append(il);
-                break;
-            }
-            case 'S': // a slow handler: sleeps 2 s inside the logger (mutex held) when called from a non-main thread
-                cur->append(FunctionHandlerPtr::create([](LogMessage &) {
-                    if (QThread::currentThread() != qApp->thread()) QThread::msleep(2000);
-                    return true;
-                }));
-                break;
-            case 'B': nsink++; cur->append(FileSinkPtr::create(QStringLiteral("/dev/full"))); break;
-            case 'g': cur->append(FunctionFilterPtr::create([](const LogMessage &m) { return m.type() == QtDebugMsg; })); break;
-            case 'n': cur->append(FunctionFilterPtr::create([](const LogMessage &m) { return m.type() != QtFatalMsg; })); break;
-            case 'e': cur->append(FunctionFilterPtr::create([](const LogMessage &m) { return msg_id(m) % 2 == 0; })); break;
-            case 'x': cur->append(RegExpFilterPtr::create(QStringLiteral("^[0-9]*[13579]:"))); break;
-            case 'l': cur->append(LevelFilterPtr::create(QtWarningMsg)); break;
-            case 'y': cur->append(CategoryFilterPtr::create(QStringLiteral("*=false\n*.debug=true"))); break;
-            case '(': {
-                // alternate scoped and unscoped nested pipelines
-                auto p = SimplePipelinePtr::create(/* scoped */ (depth++ % 2) == 0);
-                cur->append(p);
-                stack.push_back(p.data());
-                break;
-            }
-            case ')': if (stack.size() > 1) stack.pop_back(); break;
-            default: return 2;
-            }
-        }
+        if (!build_into(&gQtLogger, tree))
+            return 2;
         gQtLogger.installMessageHandler();
     }
 
@@ -197,10 +279,16 @@ int main(int argc, char **argv)
             size_t j = ms.find(',', i);
             std::string it = ms.substr(i, j == std::string::npos ? std::string::npos : j - i);
             char t = it[0];
+            if (t == '+' || t == '^' || t == '~' || t == '!') {   // a reconfiguration: kept as text
+                msgs.push_back({ t, 0, -1, it });
+                if (j == std::string::npos) break;
+                i = j + 1;
+                continue;
+            }
             size_t star = it.find('*');
             int size = atoi(it.substr(1, star == std::string::npos ? std::string::npos : star - 1).c_str());
             int cnt = star == std::string::npos ? 1 : atoi(it.substr(star + 1).c_str());
-            for (int k = 0; k < cnt; k++) { msgs.push_back({ t, size, t == 'f' ? -1 : nmsg }); if (t != 'f') nmsg++; }
+            for (int k = 0; k < cnt; k++) { msgs.push_back({ t, size, t == 'f' ? -1 : nmsg, std::string() }); if (t != 'f') nmsg++; }
             if (j == std::string::npos) break;
             i = j + 1;
         }
